@@ -58,10 +58,13 @@ func ruleVERB1(c *Ctx) {
 					return false
 				}
 				for _, d := range defs {
-					call, ok := ast.Unparen(d).(*ast.CallExpr)
-					if !ok || !(FuncCall(info, call, "jsonwire", "AppendQuote") || mentionsEncBuf(d)) {
-						return false
+					if mentionsEncBuf(d) {
+						continue
 					}
+					if call, ok := ast.Unparen(d).(*ast.CallExpr); ok && FuncCall(info, call, "jsonwire", "AppendQuote") {
+						continue
+					}
+					return false
 				}
 				return true
 			}
